@@ -5,7 +5,7 @@ use std::collections::BTreeMap;
 use std::panic::{catch_unwind, AssertUnwindSafe};
 
 use hashbrown::HashMap;
-use num_traits::ToPrimitive;
+use num_traits::ToPrimitive as _;
 
 use ska::cli::FilterType;
 use ska::merge_ska_array::MergeSkaArray;
